@@ -181,7 +181,7 @@ def check_fr3d(chk) -> None:
     # fact-level rules first (checks/c19e.py): the import evaluated on one listing per class of line; the pinned forms below are only the fallback
     from checks import c19e
 
-    why = c19e.fr3d_facts(chk, label_cases())
+    why = c19e.fr3d_facts(chk, label_cases(chk.tier == "thorough"))
     if why is None:
         return
     chk.ok("fr3d-facts", pf.where, f"fact-level reading not possible ({why[:160]}); falling back to the pinned forms")
@@ -339,9 +339,31 @@ def enum_stubs(repo) -> Dict[str, EnumStub]:
     return {en: enum_stub(repo, "common", en) for en in ("LeontisWesthof", "BR", "BPh", "StackingTopology", "Saenger")}
 
 
-def label_cases() -> Dict[str, Any]:
-    """One label per class of the label language -> (category, class) the statement gives."""
+def label_cases(full: bool = False) -> Dict[str, Any]:
+    """One label per class of the label language -> (category, class) the statement gives.  `full` (tier thorough): in addition the
+    whole product the statement spells out - 18 Leontis-Westhof classes x 8 letter cases, four stacking labels, 0-9BR, 0-9BPh, each
+    bare / with the 'n' prefix / with the 'a' suffix / with both."""
     lw = lambda n: ("base-pair", ("LeontisWesthof", n))
+    cases = _label_samples(lw)
+    if full:
+        import itertools
+
+        core: Dict[str, Any] = {}
+        for ct, e1, e2 in itertools.product("ct", "WHS", "WHS"):
+            for v in itertools.product(*((ch.lower(), ch.upper()) for ch in (ct, e1, e2))):
+                core["".join(v)] = lw(f"{ct}{e1}{e2}")
+        for lab, top in STACK_LABELS.items():
+            core[lab] = ("stacking", ("StackingTopology", top))
+        for d in "0123456789":
+            core[f"{d}BR"] = ("base-ribose", ("BR", f"_{d}"))
+            core[f"{d}BPh"] = ("base-phosphate", ("BPh", f"_{d}"))
+        for lab, want in core.items():
+            for pre, suf in (("", ""), ("n", ""), ("", "a"), ("n", "a")):
+                cases.setdefault(pre + lab + suf, want)
+    return cases
+
+
+def _label_samples(lw) -> Dict[str, Any]:
     return {
         "cWW": lw("cWW"), "tHS": lw("tHS"), "cww": lw("cWW"), "tSs": lw("tSS"), "THs": lw("tHS"), "ncWW": lw("cWW"), "cWWa": lw("cWW"), "ncWWa": lw("cWW"), "ntsh": lw("tSH"), "tWHa": lw("tWH"),
         "s33": ("stacking", ("StackingTopology", STACK_LABELS["s33"])), "s55": ("stacking", ("StackingTopology", STACK_LABELS["s55"])), "s35": ("stacking", ("StackingTopology", STACK_LABELS["s35"])), "s53": ("stacking", ("StackingTopology", STACK_LABELS["s53"])),
@@ -364,7 +386,7 @@ def check_normaliser_eval(chk) -> bool:
     from sa.world import build
 
     world = build(repo, M)  # Enum classes, dataclass constructors and the module's own functions: the same abstract world for the body and for the module-level tables it reads
-    cases = label_cases()
+    cases = label_cases(chk.tier == "thorough")
     bad = {}
     raised = {}
     try:
@@ -391,7 +413,7 @@ def check_normaliser_eval(chk) -> bool:
         not bad,
         "normaliser-eval",
         uc.where,
-        f"{len(cases)} labels, one per class of the label language (n-prefix, a-suffix, case of c/t and edges, digit+BR/BPh, sXY, junk), get the category and class of the statement",
+        f"{len(cases)} labels" + (" (one per class of the label language and the whole product 18 classes x 8 letter cases, 4 stacking labels, 0-9BR, 0-9BPh, each bare / n-prefixed / a-suffixed / both)" if len(cases) > 100 else ", one per class of the label language (n-prefix, a-suffix, case of c/t and edges, digit+BR/BPh, sXY, junk),") + " get the category and class of the statement",
         "labels are classified wrongly: " + "; ".join(f"`{k}` -> {v[1] if v[0] == 'return' else v[0]} (expected {cases[k]})" for k, v in list(bad.items())[:4]),
         K(uc, "normaliser-eval"),
         expected={k: str(cases[k]) for k in list(bad)[:8]},
@@ -579,16 +601,25 @@ def check_dssr_eval(chk) -> bool:
 
 def run(chk) -> None:
     chk.explanation = (
-        "Static rules on adapter.py. For all inputs: a small may-raise analysis (int()/float() of strings, constant subscripts of split() results without an exact length guard, Enum subscripts, "
-        "explicit raises, callees of the same module) minus enclosing handlers shows nothing escapes the per-line path. Per class of input (fragment evaluation, DESIGN 1.2 item 4, in the abstract "
-        "world of sa/world.py: Enum classes, dataclass constructors, the module's own functions as inlined ast, module-level tables folded in the same world): parse_unit_id on unit ids of every field "
-        "count; parse_fr3d_output on one listing per category the evaluated normaliser returns (exactly one object of the class of the category, between the residues of column 1 and 3, in the "
-        "BaseInteractions field of that element type), on comment / blank / malformed lines (skipped, nothing raised, later lines kept) and on several lines (file order); unify_classification on one "
-        "label per class of the label language; match_dssr_lw on every member name and on non-members; match_dssr_name_to_residue on exact / model-prefixed / prefix / unknown / missing ids; the pair and "
-        "stack loops of parse_dssr_output on five documents. The pinned forms of these constructs are consulted only where the evaluation is not possible."
+        "Static rules on adapter.py. For all inputs: a small may-raise analysis (int()/float() of strings, constant subscripts of split() results without an exact length guard, Enum subscripts "
+        "(KeyError) and Enum calls by value (ValueError) unless dominated by a membership test, explicit raises, callees of the same module) minus enclosing handlers shows nothing escapes the "
+        "per-line path and nothing a label path raises is left to the handler for malformed lines; each site is reported with its construct, reason and enclosing handlers. Per class of input "
+        "(fragment evaluation, DESIGN 1.2 item 4, in the abstract world of sa/world.py: Enum classes, dataclass constructors, the module's own functions as inlined ast; in the process model of "
+        "sa/procstate.py: module-level objects and default arguments are created once per process and live on between calls): parse_unit_id on unit ids of every field count and on ids that "
+        "differ in a single field; parse_fr3d_output on one listing per category the evaluated normaliser returns (exactly one object of the class of the category, between the residues of "
+        "column 1 and 3, in the BaseInteractions field of that element type), on one line per class of label (exactly one interaction each: no label path raises into the malformed-line handler), "
+        "on comment / blank / malformed lines (skipped, nothing raised, later lines kept), on several lines (file order) and on histories of two imports in one process (the second gives what it "
+        "gives alone, the first result is not rewritten); unify_classification on one label per class of the label language (tier thorough: the whole product 18 classes x 8 letter cases, 4 "
+        "stacking labels, 0-9BR, 0-9BPh, each bare / n-prefixed / a-suffixed / both); match_dssr_lw on every member name and on non-members; match_dssr_name_to_residue on exact / model-prefixed "
+        "/ prefix / unknown / missing ids; parse_dssr_output (file and orjson.loads as stubs) on ten documents - what is expected is computed from each document by the words of the statement "
+        "(pairs whose names and class resolve; members adjacent in a stack's own list that both resolve) - alone and one after the other in one process. The pinned forms of these constructs "
+        "are consulted only where the evaluation is not possible."
     )
     chk.trusted = ["CPython ast", "orjson.loads / file I/O errors are outside the statement", "stacking label table as coded (what FR3D's four labels denote is not decided)"]
-    chk.assumptions = ["the label language as a set of strings is not enumerated (that would be execution); only the structure of the normaliser is decided"]
+    chk.assumptions = [
+        "labels outside the enumerated classes (longer junk, other alphabets) are represented by the junk samples; only the structure of the normaliser is decided for them",
+        "call histories: state carried by module-level objects and default arguments is modelled; rebinding through `global`, attributes set on functions/classes and caches of decorators are not (the evaluation stops with 'not evaluable')",
+    ]
     # evidence rules; unit-id, line-fields, dispatch-*, result-fields, fr3d-lines, dssr-name, guard-exact are evidence rules too whenever
     # their fact-level reading (checks/c19e.py) is possible, and form rules in the fallback
     chk.robust |= {"fr3d-total", "normaliser-eval", "dssr-eval", "normaliser-self-update", "import-history", "label-total"}
@@ -601,8 +632,9 @@ def run(chk) -> None:
 
 
 MANIFEST_ENTRY = {
-    "text": "Static decision on the current source of adapter.py: totality (the may-raise set of the per-line path is covered by its handlers for every file content), faithful field positions, exhaustive dispatch with one object of the matching "
-    "class per branch, normaliser steps that update the string they test, exact Enum-membership guard for DSSR classes, pair and consecutive-stack rules. 'Never raises' and 'nothing dropped' are for-all-inputs claims decided on all paths.",
+    "text": "Static decision on the current source of adapter.py: totality (the may-raise set of the per-line path is covered by its handlers for every file content; no label path raises into the malformed-line handler), faithful field positions, "
+    "exhaustive dispatch with one object of the matching class per category and per class of label, normaliser steps that update the string they test, exact Enum-membership guard for DSSR classes, pairs and stack members adjacent in the stack's own "
+    "list, independence of an import from the imports made before it in the same process. 'Never raises' is a for-all-inputs claim decided on all paths; the faithful-import clauses are decided by evaluating the code's ast on one representative per class of input.",
     "note": "Trusted: orjson and file I/O. Not decided: the label language as a set of strings (enumeration is execution) and what FR3D's four stacking labels denote.",
     "technique": "static analysis: may-raise/handler coverage, exhaustiveness of dispatch vs returned literals, argument/field agreement, guard exactness",
 }
